@@ -206,9 +206,12 @@ class RW:
 
 
 class R:
-    def __init__(self, name, targets, expect, cls, desc, fn, tests=None):
+    def __init__(self, name, targets, expect, cls, desc, fn, tests=None, known=None):
+        """known: for an `invariant` rewrite that the translator deliberately does not tolerate — the reason (docs/ROBUSTNESS.md);
+        BREAKS is then the documented outcome and not counted as unexpected"""
         assert expect in ("invariant", "changes")
         self.name, self.targets, self.expect, self.cls, self.desc, self.fn, self.tests = name, targets, expect, cls, desc, fn, tests or []
+        self.known = known
 
 
 def load_catalogue():
@@ -420,7 +423,9 @@ def main():
             breaks = [g for g, v in row["files"].items() if v.startswith("BREAKS")]
             if r.expect == "invariant":
                 row["status"] = "BREAKS" if breaks else ("changed/pass" if changed else "identical")
-                if breaks:
+                if breaks and r.known:
+                    row["status"] = "BREAKS (documented limitation: " + r.known + ")"
+                elif breaks:
                     bad += 1
             else:
                 row["status"] = "caught" if breaks else ("changed (theorems pass)" if changed else "BLIND")
